@@ -9,7 +9,7 @@
    of ALL register update attempts, each with the value stored before it ([a_before]), the value passed
    ([a_value]) and whether the compare-and-swap succeeded ([a_ok]).  The placement function's proposals are
    universally quantified event parameters, so every theorem holds whatever the placement answers. *)
-From ZV Require Import Migrate.Consts Migrate.Model Migrate.Proofs.
+From ZV Require Import Migrate.Consts Migrate.Model Migrate.Proofs Migrate.Multi Migrate.MultiProofs.
 Open Scope N_scope.
 
 (* Inv q replica i: well-formed (RaftNodes duplicate-free, RaftIDs a map, injective, <= MaxRaftID, Removings a map),
@@ -234,6 +234,58 @@ Theorem C18_created_layout_valid : forall replica l i,
 Proof. exact (create_partition_inv true). Qed.
 Print Assumptions C18_created_layout_valid.
 
+(* ---------- several partitions (Migrate/Multi.v) ----------
+   [mrun m evs] runs events on a namespace with any number of partitions: a single-partition event on one partition
+   (MOn), the shared events (MGlobal), and the rounds that loop over all partitions in an arbitrary order given in the
+   event (Go map iteration), consulting an arbitrary placement answer per partition and use. Every partition is its
+   own raft group: the single-partition results hold for each one separately. *)
+
+(* (6) per partition: every attempt satisfies att_ok (Inv of the value before and of the value written, the
+       permitted-change relation, the shrink clause) for the factor in effect, the attempts on the partition form a
+       chain over its stored value, and at the end every partition's stored value satisfies Inv *)
+Theorem C18_multi_partition : forall q m evs,
+  MInv q m -> (q = true -> m_lowering_only m evs) ->
+  MInv q (fst (mrun m evs)) /\
+  forall pid sl, aget pid (m_parts m) = Some sl -> part_ok q pid sl (fst (mrun m evs)) (snd (mrun m evs)).
+Proof. exact mrun_spec. Qed.
+Print Assumptions C18_multi_partition.
+
+(* (6a) ids are never reused within a partition, whatever happens to the other partitions and to the factor *)
+Theorem C18_multi_ids_never_reused : forall m evs pid sl,
+  MInv false m -> aget pid (m_parts m) = Some sl ->
+  never_reused (ids_of (p_info sl)) (map snd (plog pid (snd (mrun m evs)))).
+Proof.
+  intros m evs pid sl Hi E.
+  destruct (mrun_spec false m evs Hi) as [_ H]; [discriminate|].
+  destruct (H pid sl E) as [sl' [_ [Hch Hall]]].
+  eapply chain_never_reused; [exact Hch| |].
+  - apply Forall_forall. intros a Ha. apply in_map_iff in Ha. destruct Ha as [[r a'] [He Ha]]. simpl in He. subst a'.
+    rewrite Forall_forall in Hall. destruct (Hall _ Ha) as [_ [[Hwv _] [Ht _]]]. split; assumption.
+  - intros id Hid. unfold ids_of in Hid. apply in_map_iff in Hid. destruct Hid as [[n id'] [He Hid]]. simpl in He. subst.
+    destruct (Hi pid sl E) as [Hw _]. apply (wf_ids_max _ Hw n id Hid).
+Qed.
+Print Assumptions C18_multi_ids_never_reused.
+
+(* (7) what one round may touch. A check round makes at most two update attempts per partition (finish a removal,
+       then one migration step or one planned removal); a balance round - stopped at its first attempt, as the
+       harness runs it - and a node-removal round touch a single partition. There is NO limit across partitions in
+       a check round: the code's "migrate only one at once" throttle discards its result (parts[pid].Add), see
+       C18_ex_two_partitions_one_round. *)
+Theorem C18_check_round_limit : forall m full order ps pid,
+  NoDup order -> (length (patts pid (snd (check_round m full order ps))) <= 2)%nat.
+Proof. exact check_round_limit. Qed.
+Print Assumptions C18_check_round_limit.
+
+Theorem C18_balance_round_one_partition : forall m order p,
+  exists pid, forall pa, In pa (snd (balance_round m order p)) -> fst pa = pid.
+Proof. exact balance_round_limit. Qed.
+Print Assumptions C18_balance_round_one_partition.
+
+Theorem C18_removal_round_one_partition : forall m order p,
+  exists pid, forall pa, In pa (snd (process_round m order p)) -> fst pa = pid.
+Proof. exact process_round_limit. Qed.
+Print Assumptions C18_removal_round_one_partition.
+
 (* ---------- non-vacuity ---------- *)
 (* a valid 3-replica layout on nodes 1,2,3; all five nodes registered and answering; node 3 is lost; after the
    wait interval the check marks it removing; the data nodes drop it; after the removing wait the check takes it
@@ -277,3 +329,18 @@ Example C18_ex_run :
   /\ raft_ids (r_info (s_reg (fst res))) = [(1,1);(2,2);(4,4);(101,5)]
   /\ learners (r_info (s_reg (fst res))) = [101].
 Proof. vm_compute. repeat split; reflexivity. Qed.
+
+(* two partitions on nodes 1,2,3; node 3 is lost; after the wait interval ONE full check round marks node 3 removing
+   in BOTH partitions *)
+Definition ex2_events : list mevent :=
+  [ MGlobal (ENodes [1;2;3;4;5] []);
+    MOn 0 (EAnswer [(1, ex_members [(1,1);(2,2);(3,3)]); (2, ex_members [(1,1);(2,2);(3,3)]); (3, ex_members [(1,1);(2,2);(3,3)])]);
+    MOn 1 (EAnswer [(1, ex_members [(1,1);(2,2);(3,3)]); (2, ex_members [(1,1);(2,2);(3,3)]); (3, ex_members [(1,1);(2,2);(3,3)])]);
+    MGlobal (ENodes [1;2;4;5] []);
+    MCheckAll true [1;0] [];
+    MGlobal (ETick 18);
+    MCheckAll true [1;0] [] ].
+Example C18_ex_two_partitions_one_round :
+  map (fun e => (fst (snd e), map fst (removings (a_value (snd (snd e))))))
+      (snd (mrun (minit 3 [(0, ex_info); (1, ex_info)] true) ex2_events)) = [(1, [3]); (0, [3])].
+Proof. vm_compute. reflexivity. Qed.
